@@ -3,13 +3,35 @@
    context), a typechecked expression cannot error at all on a request of the environment: the only error classes
    the fragment can raise syntactically are type errors and missing attributes, and tc_sound excludes both. *)
 From Coq Require Import List Bool.
-From Cedar Require Import Typecheck TypecheckProofs.
+From Cedar Require Import Typecheck TypecheckProofs TypecheckMain.
 Import ListNotations.
 
-Lemma fragment_err_class q es e : in_fragment e = true ->
+(* the error-free sub-fragment of C03's proved fragment (TypecheckMain.in_fragment has since grown to arithmetic,
+   entity access paths, ... whose evaluation CAN fail with the permitted errors overflow / missing entity) *)
+Fixpoint tpe_fragment (e : expr) : bool :=
+  match e with
+  | Lit _ | Var _ => true
+  | And a b | Or a b | BinApp BEq a b => tpe_fragment a && tpe_fragment b
+  | UnApp UNot a => tpe_fragment a
+  | HasAttr (Var Context) _ | GetAttr (Var Context) _ => true
+  | _ => false
+  end.
+
+Lemma tpe_fragment_in_fragment e : tpe_fragment e = true -> in_fragment e = true.
+Proof.
+  induction e; cbn [tpe_fragment in_fragment]; try discriminate; auto.
+  - intros H. apply andb_prop in H as [Ha Hb]. rewrite IHe1, IHe2; auto.
+  - intros H. apply andb_prop in H as [Ha Hb]. rewrite IHe1, IHe2; auto.
+  - destruct op; try discriminate. auto.
+  - destruct op; try discriminate. intros H. apply andb_prop in H as [Ha Hb]. rewrite IHe1, IHe2; auto.
+  - destruct e; try discriminate. destruct v; try discriminate. reflexivity.
+  - destruct e; try discriminate. destruct v; try discriminate. reflexivity.
+Qed.
+
+Lemma fragment_err_class q es e : tpe_fragment e = true ->
   forall c, eval [] q es e = Err c -> c = ErrType \/ c = ErrAttrMissing.
 Proof.
-  induction e; cbn [in_fragment]; try discriminate; intros Hf c H.
+  induction e; cbn [tpe_fragment]; try discriminate; intros Hf c H.
   - apply andb_prop in Hf as [Ha Hb]. rewrite eval_and in H.
     destruct (eval [] q es e1) as [va|ea] eqn:Ea; cbn in H; [|inversion H; subst; eapply IHe1; eauto].
     destruct (as_bool va) as [x|ex] eqn:Ex; cbn in H.
@@ -18,7 +40,7 @@ Proof.
       destruct (as_bool vb) as [y|ey] eqn:Ey; cbn in H; [discriminate H|].
       inversion H; subst. destruct vb as [p| | |]; try (cbn in Ey; inversion Ey; auto). destruct p; cbn in Ey; inversion Ey; auto.
     + inversion H; subst. destruct va as [p| | |]; try (cbn in Ex; inversion Ex; auto). destruct p; cbn in Ex; inversion Ex; auto.
-  - apply andb_prop in Hf as [Hab Hc]. apply andb_prop in Hab as [Ha Hb]. rewrite eval_or in H.
+  - apply andb_prop in Hf as [Ha Hb]. rewrite eval_or in H.
     destruct (eval [] q es e1) as [va|ea] eqn:Ea; cbn in H; [|inversion H; subst; eapply IHe1; eauto].
     destruct (as_bool va) as [x|ex] eqn:Ex; cbn in H.
     + destruct x; [discriminate H|].
@@ -37,15 +59,21 @@ Proof.
   - destruct e; try discriminate. destruct v; try discriminate.
 Qed.
 
-(* a typechecked expression of the fragment evaluates, without error, to a value of its type *)
+(* a typechecked expression of the fragment evaluates, without error, to a value of its type
+   (hypotheses: those of C03's tc_sound — well-formed schema, request and store conformant) *)
 Theorem noerr_from_typing m sch env q es :
+  schema_wf sch = true ->
+  (forall t, is_action_type t = true -> find_etype sch t = None) ->
+  decl_ty_ok (re_context env) = true ->
   env_ok env q ->
-  forall e, in_fragment e = true ->
+  store_ok sch es ->
+  forall e, tpe_fragment e = true ->
   forall cs t cs', caps_hold q es cs -> tc m sch env cs e = Some (t, cs') ->
   exists v, eval [] q es e = Ok v /\ TypeConforms v t.
 Proof.
-  intros Henv e Hf cs t cs' Hc Ht.
-  destruct (tc_sound m sch env q es Henv e Hf cs t cs' Hc Ht) as [[c [He Ha]]|[v [He [Hv _]]]].
+  intros Hwf Hact Hctx Henv Hst e Hf cs t cs' Hc Ht.
+  destruct (tc_sound m sch env q es Hwf Hact Hctx Henv Hst e (tpe_fragment_in_fragment e Hf) cs t cs' Hc Ht)
+    as [_ [[c [He Ha]]|[v [He [Hv _]]]]].
   - exfalso. destruct (fragment_err_class q es e Hf c He) as [->| ->];
       destruct Ha as [Ha|[Ha|Ha]]; discriminate Ha.
   - eauto.
@@ -53,12 +81,16 @@ Qed.
 
 (* ... in particular a boolean-typed one is a boolean: the `boolish` and no-error premises of TPESound.Side *)
 Corollary bool_noerr_from_typing m sch env q es :
+  schema_wf sch = true ->
+  (forall t, is_action_type t = true -> find_etype sch t = None) ->
+  decl_ty_ok (re_context env) = true ->
   env_ok env q ->
-  forall e, in_fragment e = true ->
+  store_ok sch es ->
+  forall e, tpe_fragment e = true ->
   forall cs x cs', caps_hold q es cs -> tc m sch env cs e = Some (TBool x, cs') ->
   exists b, eval [] q es e = Ok (VBool b).
 Proof.
-  intros Henv e Hf cs x cs' Hc Ht.
-  destruct (noerr_from_typing m sch env q es Henv e Hf cs _ cs' Hc Ht) as [v [He Hv]].
+  intros Hwf Hact Hctx Henv Hst e Hf cs x cs' Hc Ht.
+  destruct (noerr_from_typing m sch env q es Hwf Hact Hctx Henv Hst e Hf cs _ cs' Hc Ht) as [v [He Hv]].
   destruct (conf_bool v x Hv) as [b [-> _]]. eauto.
 Qed.
